@@ -421,7 +421,7 @@ func c17E2E(f []string) (out string) {
 			out = "panic " + strings.ReplaceAll(fmt.Sprint(e), " ", "_")
 		}
 	}()
-	w := c17NewWorld(f[0] == "ae2e")
+	w := c17NewWorld(f[0] == "ae2e" || f[0] == "rae2e")
 	defer w.close()
 	var res []string
 	for _, op := range f[1:] {
